@@ -172,6 +172,10 @@ package core
 // ---------------------------------------------------------------------------
 // Banned directives (C19). The set is written only by the option, before the build.
 //@ confined JApiCore.bannedDirectives writers WithBannedDirectives property C19
+// ... and read only where a directive keyword is consumed (the three ban checks): "every project in which none occurs builds
+// exactly as without the option" - no other code can behave differently because of the set (C19-9 skipped the PASTE
+// expansion when PASTE was banned)
+//@ confined JApiCore.bannedDirectives readers WithBannedDirectives, setCurrentDirective, processInclude, addDirective property C19
 // the option only ever adds to the set: bans given by several options accumulate
 //@ func WithBannedDirectives$1(c)
 //@   property C19
